@@ -17,4 +17,6 @@ b[0x24] = 0x2c
 open(p, "wb").write(b)
 PY
 cp -r /usr/lib/locale/C.utf8 "$D/C.utf8" 2>/dev/null || true
+# a point-decimal locale that is NOT the built-in C object (a heap-allocated locale_t with '.' as the radix)
+rm -rf "$D/yy_YY.utf8"; cp -r /usr/lib/locale/C.utf8 "$D/yy_YY.utf8"
 echo "locale ok: $D/xx_XX.utf8"
